@@ -4,7 +4,7 @@
    The theorems need no NUL-freeness: the model (like the Rust code) treats a NUL byte as any other byte. *)
 From RU Require Import Base.Prelude Model.AsciiSet Gen.Tables Model.PercentEncoding
   Model.HostT Model.UrlRecord Model.Parser Model.FilePath
-  Proofs.C20_Path Proofs.C20_RT Proofs.C20_Join Proofs.C20_Dir.
+  Proofs.C20_Path Proofs.C20_RT Proofs.C20_Join Proofs.C20_Dir Proofs.C20_Plain.
 
 (* Round trip.  For every absolute path p (any bytes): from_file_path succeeds and builds exactly the
    record  "file://" ++ url_path_of (kept p)  with offsets 4,7,7,7,7 and no host/port/query/fragment,
@@ -57,10 +57,14 @@ Check C20_dir : forall p,
 Print Assumptions C20_dir.
 
 (* Joining a file name.  The reference handed to Url::join is name_reference f = the
-   SPECIAL_PATH_SEGMENT-encoding of the name (what from_file_path would write for that component).
-   Full statement, for the class plain_name (non-empty, no NUL, no '/', not "." or "..", not of the form
-   scheme ':' ..., not a drive letter "X|"), for every host parser/serialiser the URL parser is run with: *)
-Definition C20_dir_statement : Prop :=
+   SPECIAL_PATH_SEGMENT-encoding of the name (what from_file_path would write for that component; for
+   names over [A-Za-z0-9._-] it is the name itself).  For every plain name (non-empty, no NUL, no '/',
+   not "." or "..", not of the form  alpha (alnum|+|-|.)* ':' ...  which the parser reads as an absolute
+   URL, and not the drive letter "X|"), every absolute directory path p, both build configurations and
+   whatever host parser/serialiser the URL parser model is run with: the join succeeds, to_file_path
+   succeeds on the result, and the path it gives has the components of p followed by the component f,
+   i.e. it is == Path::join(p, f) as a PathBuf. *)
+Theorem C20_dir_join :
   forall dbg host_parse host_parse_opaque host_display p f,
     bytes p -> path_is_absolute p = true -> plain_name f = true ->
     exists d u q,
@@ -68,35 +72,26 @@ Definition C20_dir_statement : Prop :=
       /\ url_join dbg host_parse host_parse_opaque host_display d (name_reference f) = POk u
       /\ to_file_path dbg u = FOk q
       /\ path_components q = path_components p ++ [CNormal f]
+      /\ path_eq q (path_join p f) = true
       /\ dir_join_to_path dbg host_parse host_parse_opaque host_display p (name_reference f) = FOk q.
-
-(* Proved through the whole URL parser model for the names over [A-Za-z0-9._-] other than "." and ".."
-   (for these the reference is the name itself); they are plain names. *)
-Theorem C20_dir_partial :
+Proof. exact dir_join_plain. Qed.
+Check C20_dir_join :
   forall dbg host_parse host_parse_opaque host_display p f,
-    bytes p -> path_is_absolute p = true -> simple_name f = true ->
+    bytes p -> path_is_absolute p = true -> plain_name f = true ->
     exists d u q,
       from_directory_path p = FOk d
       /\ url_join dbg host_parse host_parse_opaque host_display d (name_reference f) = POk u
       /\ to_file_path dbg u = FOk q
       /\ path_components q = path_components p ++ [CNormal f]
+      /\ path_eq q (path_join p f) = true
       /\ dir_join_to_path dbg host_parse host_parse_opaque host_display p (name_reference f) = FOk q.
-Proof. exact dir_join_simple. Qed.
-Check C20_dir_partial :
-  forall dbg host_parse host_parse_opaque host_display p f,
-    bytes p -> path_is_absolute p = true -> simple_name f = true ->
-    exists d u q,
-      from_directory_path p = FOk d
-      /\ url_join dbg host_parse host_parse_opaque host_display d (name_reference f) = POk u
-      /\ to_file_path dbg u = FOk q
-      /\ path_components q = path_components p ++ [CNormal f]
-      /\ dir_join_to_path dbg host_parse host_parse_opaque host_display p (name_reference f) = FOk q.
-Print Assumptions C20_dir_partial.
+Print Assumptions C20_dir_join.
 
-Theorem C20_simple_is_plain : forall f, simple_name f = true -> plain_name f = true.
-Proof. exact simple_is_plain. Qed.
-Check C20_simple_is_plain : forall f, simple_name f = true -> plain_name f = true.
-Print Assumptions C20_simple_is_plain.
+(* the names over [A-Za-z0-9._-] other than "." and ".." are plain and are their own reference *)
+Theorem C20_simple_names : forall f, simple_name f = true -> plain_name f = true /\ name_reference f = f.
+Proof. intros f H. split; [exact (simple_is_plain f H) | exact (proj1 (simple_name_ref f H))]. Qed.
+Check C20_simple_names : forall f, simple_name f = true -> plain_name f = true /\ name_reference f = f.
+Print Assumptions C20_simple_names.
 
 (* to_file_path and the host: Err when the path has no segments, Err when the host is anything but
    absent or the domain "localhost"; and whenever it succeeds, the host is one of those two and the result
